@@ -12,13 +12,19 @@
    parameters) is translated into DataIR programs (Model/DataIR.v, Model/GoData.v, regenerated every run); the
    [data_*] / [drun_*] theorems say that running them returns exactly the model's nested data (Model/Data.v,
    Model/Fill.v) and panics exactly where the model says None.
+   The thin WRAPPERS of cputensor (shape helper + element generator + initWith: transpose, reshape, broadcast, slice,
+   patch, dot, matMul, reduceDimUsingFunc, constTensor, eyeMatrix) and the five cases of initTensorFromData are
+   translated too (Model/GoWrap.v); their calls of the functions above go through the oracle Model/DataExt.v, which
+   maps each callee to the model function the theorems above prove it to be; the [*_wrapper_*] theorems say the
+   wrapper returns the model tensor (and panics where the model says None) and [initTensorFromData_*] that every case
+   returns (shapeOf x, x) on data accepted by the validator.
    An edit of one of these Go functions changes GoFns.v / GoData.v and breaks the theorem unless it computes the same thing.
    Closed under the global context. *)
 From Coq Require Import String List ZArith Bool Arith.
 From Qeep Require Import Model.Scalar Model.Nd Model.Fill Model.Valid Model.GoIR Model.DataIR.
-From Qeep Require Model.Data Model.Api Model.GoFns Model.GoData.
+From Qeep Require Model.Data Model.Api Model.GoFns Model.GoData Model.DataExt Model.GoWrap.
 From Qeep Require Import Proofs.GoIRP.
-From Qeep Require Proofs.GoValidAtP Proofs.GoValidP1 Proofs.GoValidP2 Proofs.GoValidP3 Proofs.GoDimsP1 Proofs.GoDimsP2 Proofs.GoGenP1 Proofs.GoGenP2 Proofs.GoGenP3 Proofs.GoMatMulShapeP Proofs.DataAtP Proofs.DataSliceP Proofs.DataPatchP Proofs.DataApplyP Proofs.DataReduceP Proofs.DataFillP Proofs.DataLinalgP Proofs.DataConcatP.
+From Qeep Require Proofs.GoValidAtP Proofs.GoValidP1 Proofs.GoValidP2 Proofs.GoValidP3 Proofs.GoDimsP1 Proofs.GoDimsP2 Proofs.GoGenP1 Proofs.GoGenP2 Proofs.GoGenP3 Proofs.GoMatMulShapeP Proofs.DataAtP Proofs.DataSliceP Proofs.DataPatchP Proofs.DataApplyP Proofs.DataReduceP Proofs.DataFillP Proofs.DataLinalgP Proofs.DataConcatP Proofs.DataWrapP Proofs.DataFromDataP.
 Import ListNotations.
 Local Open Scope string_scope.
 
@@ -147,3 +153,23 @@ Theorem copiedSliceOf_program_is_copiedSliceOf :
   end.
 Proof. exact @DataSliceP.data_copiedSliceOf. Qed.
 Print Assumptions copiedSliceOf_program_is_copiedSliceOf.
+
+Theorem reduceDimUsingFunc_wrapper_is_reduceAlong :
+  forall (A : Type) (SA : Scalar A) (fapp : string -> list A -> option A) (red : Data.reducer)
+    (fuel depth : nat) (ds : list nat) (x : nd A) (dim : nat) (trf : dval),
+  dim <= Datatypes.length ds ->
+  DataWrapP.returns
+    (drun fapp unit (DataExt.dext red) GoWrap.w_reduceDimUsingFunc fuel depth
+       [dnats ds; emb x; DI (Z.of_nat dim); trf] tt)
+    (Data.reduceAlong red {| dims := ds; data := x |} dim).
+Proof. exact @DataWrapP.w_reduceDimUsingFunc_run. Qed.
+Print Assumptions reduceDimUsingFunc_wrapper_is_reduceAlong.
+
+Theorem reduceDimUsingFunc_wrapper_panics_beyond_rank :
+  forall (A : Type) (SA : Scalar A) (fapp : string -> list A -> option A) (red : Data.reducer)
+    (fuel depth : nat) (ds : list nat) (x : nd A) (dim : nat) (trf : dval),
+  Datatypes.length ds < dim ->
+  drun fapp unit (DataExt.dext red) GoWrap.w_reduceDimUsingFunc fuel depth
+    [dnats ds; emb x; DI (Z.of_nat dim); trf] tt = DPanic unit.
+Proof. exact @DataWrapP.w_reduceDimUsingFunc_outside. Qed.
+Print Assumptions reduceDimUsingFunc_wrapper_panics_beyond_rank.
